@@ -108,7 +108,7 @@ func (w *world) gen(r *sim.Rand) *sim.Step {
 	switch cs {
 	case "subscribed":
 		wMine, wAnn, wAdv = 26, 30, 4
-		wDropIdle, wArmDrop, wArmGet, wArmSub, wRefuse = on("en_drop_idle", 9), on("en_drop_req", 8), on("en_getlogs_fail", 8), on("en_sub_fail", 3), on("en_refuse", 3)
+		wDropIdle, wArmDrop, wArmGet, wArmSub, wRefuse = on("en_drop_idle", 6), on("en_drop_req", 6), on("en_getlogs_fail", 6), on("en_sub_fail", 2), on("en_refuse", 2)
 		wRestart = on("en_restart", 1)
 	case "reconnecting":
 		wMine, wAdv = 12, 60
